@@ -36,6 +36,10 @@ func (eval Evaluator) EvaluateMany(ctIn *rlwe.Ciphertext, linearTransformations 
 		}
 	}
 
+	if levelP < 0 {
+		return fmt.Errorf("cannot evaluate linear transformations without auxiliary prime (LevelP = %d): the hoisted evaluation requires LevelP >= 0", levelP)
+	}
+
 	levelQ = utils.Min(levelQ, ctIn.Level())
 
 	BuffDecompQP := eval.GetBuffDecompQP()
